@@ -28,7 +28,7 @@ def make_case(cid, s, flags=()):
     oracle = ('package cs\n\nimport "verifcases/vo"\n\nfunc VerifObserve(emit func(string, string)) {\n'
               '\tvo.ObserveCtor(emit, New%s)\n}\n' % newgen.instantiate(s))
     args = ["new"] + list(flags) + ["-type=" + s["name"]]
-    return {"id": cid, "spec": s, "files": {"t.go": newgen.render_file("cs", [s])},
+    return {"id": cid, "spec": s, "files": newgen.case_files("cs", [s], cid),
             "runs": [{"args": args}], "oracle": {".": oracle},
             "sexp": newgen.ctor_sexp(cid, s), "cmd": "shoot " + " ".join(args),
             "types": leaf_types(s)}
@@ -54,6 +54,7 @@ def gen_cases(ctx):
             opts = {"keyword": 0.5}
         if r > 0.93:
             opts = dict(opts, generic=0.0)
+        opts = dict(opts, crosspkg=0.12)
         s = g.top("T", **opts)
         if r > 0.93:
             # generic struct with a constraint that is not a plain identifier (finding region F_tparamNonIdent)
